@@ -1710,6 +1710,17 @@ class ZoneFn:
                 if ln is not None and parse_array_len(self.body.local_ty(call['args'][0]['pl']['l'])) is None:
                     return [(ln, want), (want, ln)]
             return None
+        if tgt is None and (call.get('callee') or '').endswith(('<impl [T]>::first_chunk', '<impl [T]>::last_chunk', '<impl [T]>::split_first_chunk',
+                                                                  '<impl [T]>::split_last_chunk')):
+            # the first / last N elements exist: the slice has at least N (it may have more)
+            ca = call.get('cargs') or []
+            if len(ca) == 1 and call['args'] and call['args'][0]['k'] in ('copy', 'move'):
+                n = ca[0]
+                want = (None, int(n)) if str(n).isdigit() else ((None, self.cg[n]) if n in self.cg else ('N:' + str(n), 0))
+                ln = self.len_of_place(call['args'][0]['pl'])
+                if ln is not None:
+                    return [(want, ln)]
+            return None
         cargs = None
         if (call.get('callee') or '') in ('std::ops::Fn::call', 'std::ops::FnMut::call_mut', 'std::ops::FnOnce::call_once') and len(call['args']) == 2:
             tgt = None
